@@ -20,6 +20,17 @@ def _units():
             out.append(Unit(name, "harness/C17_bitset.cpp", defs=defs,
                             flavours={"quick": ["asan-cc"], "thorough": thorough},
                             shards={"quick": 4, "thorough": 8}))
+    # widths beyond uint8_t's range of counts (count() must not be computed in the word type)
+    out.append(Unit("C17_basic_u8_wide", "harness/C17_bitset.cpp",
+                    defs=["-DVF_KIND=3", '-DVF_UNIT="C17_basic_u8_wide"', "-DVF_W0=255", "-DVF_W1=256", "-DVF_W2=257", "-DVF_W3=300"],
+                    flavours={"quick": ["asan-cc"], "thorough": ["asan-cc", "asan-nocc"]}, shards={"quick": 4, "thorough": 8}))
+    # width beyond uint16_t's range of counts: thorough only (every observer walks 65537 positions)
+    out.append(Unit("C17_basic_u16_giant", "harness/C17_bitset.cpp",
+                    defs=["-DVF_KIND=4", '-DVF_UNIT="C17_basic_u16_giant"', "-DVF_W0=65537"],
+                    flavours={"quick": [], "thorough": ["asan-cc"]}, shards={"quick": 1, "thorough": 8}))
+    # constant-evaluation twin of the observers (constexpr table vs run-time etl vs run-time std::bitset)
+    out.append(Unit("C17_constexpr", "harness/C17_constexpr.cpp", defs=["-fconstexpr-ops-limit=400000000"],
+                    flavours={"quick": ["asan-cc"], "thorough": ["asan-cc", "asan-nocc", "plain-cc"]}, shards={"quick": 2, "thorough": 2}))
     return out
 
 
@@ -59,7 +70,14 @@ P = dict(
           "N/2, 1, 0, and in a separate case N+1, N+3; pos 0/2 with junk before and after; n = rest / npos / > rest / < rest; default, "
           "custom, swapped and NUL-as-zero / NUL-as-one characters; every defaulted-argument call form; char and wchar_t; the char const* "
           "form with explicit n also on exact-size blocks WITHOUT terminator, so measuring the string instead of taking n characters reads out of the block). Random part: seeded histories "
-          "of 64 (thorough: 1 in 8 of 256) steps over all of these operations, 150 (thorough 3000) per subject. Distinct = distinct hash of (subject, value before, operation, arguments); "
+          "of 64 (thorough: 1 in 8 of 256) steps over all of these operations, 150 (thorough 3000) per subject. Additional subjects: basic_bitset<N,u8> for N in {255,256,257,300} "
+          "(more bits than a uint8_t can count; per-position sweeps at 12 edge positions, histories of 24 steps) and, thorough only, "
+          "basic_bitset<65537,u16> (routes, whole-set/binary operations, single-bit operations at positions 0/65535/65536/N-1, all observers). "
+          "string_view constructor also with user-supplied case-insensitive character traits (letters as zero/one, mixed case) against "
+          "std::basic_string with the same traits. Constant-evaluation twin (unit C17_constexpr): 14 subjects x 266 values (every nibble value "
+          "in every nibble position of a 64-bit word, all-ones, alternating, 0xDD.. patterns) - 24 observer results computed by one constexpr "
+          "function in a constant expression and again at run time on volatile-laundered inputs, both compared with run-time std::bitset. "
+          "Distinct = distinct hash of (subject, value before, operation, arguments); "
           "non-trivial = every mutating step and every construction of a non-zero value."),
     units=_units(),
     floor={"quick": 20000000, "thorough": 200000000},
